@@ -46,7 +46,15 @@ Inductive op :=
         (* toggles = (withdrawals, deposits, swaps) *)
 | Donate (i : bool) (z : Z)
 | TransferLP (from to : nat) (a : Z)
-| WithdrawDirect (who : nat) (denom : nat) (a : Z).
+| WithdrawDirect (who : nat) (denom : nat) (a : Z)
+| BadFundsSwap (who : nat) (dir : bool) (declared sent : Z)
+        (* ExecuteMsg::Swap of a NATIVE offer asset whose declared amount differs from the coins attached *)
+| BadFundsProvide (who : nat) (d0 d1 : Z)
+        (* ProvideLiquidity where a native asset's declared amount differs from the coins attached *)
+| ForeignHookSwap (who : nat) (x : Z)
+        (* a cw20 token that is NOT one of the pool's assets sends the Swap hook *)
+| TokenViaNativeSwap (who : nat) (dir : bool) (x : Z).
+        (* ExecuteMsg::Swap naming a cw20 asset (must go through the token's Send) *)
         (* ExecuteMsg::WithdrawLiquidity {} with `a` coins of some native denom attached: meant for token-factory LP
            tokens only; with a cw20 LP token (default build) the expected denom is "" and every call is rejected *)
 
@@ -213,6 +221,10 @@ Definition op_wf (o : op) : bool :=
   | Donate _ z => fits128 z
   | TransferLP _ _ a => fits128 a
   | WithdrawDirect _ _ a => fits128 a
+  | BadFundsSwap _ _ a b => fits128 a && fits128 b
+  | BadFundsProvide _ a b => fits128 a && fits128 b
+  | ForeignHookSwap _ a => fits128 a
+  | TokenViaNativeSwap _ _ a => fits128 a
   end.
 
 Definition step (k : consts) (s : pstate) (o : op) : outcome (pstate * payout) :=
@@ -226,6 +238,10 @@ Definition step (k : consts) (s : pstate) (o : op) : outcome (pstate * payout) :
   | Donate i z => donate s i z
   | TransferLP f t a => transfer_lp s f t a
   | WithdrawDirect _ _ _ => Err E_OTHER              (* AssetMismatch *)
+  | BadFundsSwap _ _ _ _ => if negb (en_s s) then Err E_DISABLED else Err E_OTHER   (* balance mismatch *)
+  | BadFundsProvide _ _ _ => if negb (en_d s) then Err E_DISABLED else Err E_OTHER
+  | ForeignHookSwap _ _ => if negb (en_s s) then Err E_DISABLED else Err E_UNAUTH
+  | TokenViaNativeSwap _ _ _ => if negb (en_s s) then Err E_DISABLED else Err E_UNAUTH
   end.
 
 (* transactional semantics: a failed operation leaves the state untouched *)
